@@ -75,11 +75,17 @@ def run_kani_unit(unit_dir, tier):
             cmd += ['--harness', h['name']]
         env = dict(os.environ, CARGO_NET_OFFLINE='true')
         res['checker_cmd'] = ' '.join(cmd) + '   (in a scratch copy of the repository with units/%s/%s injected)' % (unit, ','.join(i['append'] for i in cfg.get('inject', [])))
+        import signal
+        pp = subprocess.Popen(cmd, cwd=sc, stdout=subprocess.PIPE, stderr=subprocess.STDOUT, text=True, env=env, start_new_session=True)
         try:
-            p = subprocess.run(cmd, cwd=sc, capture_output=True, text=True, timeout=cfg.get('timeout_s', 1200), env=env)
+            out, _ = pp.communicate(timeout=cfg.get('timeout_s', 1200))
         except subprocess.TimeoutExpired:
+            try:
+                os.killpg(pp.pid, signal.SIGKILL)   # cargo-kani, kani-driver and every cbmc child
+            except Exception:
+                pass
+            pp.wait()
             raise Undecided('cargo kani timed out after %ds' % cfg.get('timeout_s', 1200))
-        out = p.stdout + p.stderr
         failed = set(m.group(1).split('::')[-1] for m in re.finditer(r'Verification failed for - (\S+)', out))
         m = re.search(r'Complete - (\d+) successfully verified harnesses, (\d+) failures, (\d+) total', out)
         if not m:
@@ -489,9 +495,11 @@ def main():
         return 1 if still else 0
 
     # concrete failing inputs: searched only when something failed / is undecided, or in the thorough tier (conformance)
-    witness = {'ran': False, 'reason': 'not needed (all obligations discharged, quick tier)', 'results': []}
+    witness = {'ran': False, 'reason': 'disabled by VERIF_NO_WITNESS', 'results': []}
     known_w = {k.get('witness'): k for k in known if k.get('witness')}
-    if new_fail or undecided or seen_known or known_w or tier == 'thorough':
+    # the witness program runs in both tiers: it is cheap, it is the only source of concrete failing inputs, and it reaches code
+    # that no contract covers (listed under not_covered).  It never turns anything into 'proved'.
+    if not os.environ.get('VERIF_NO_WITNESS'):
         witness = run_witness(prop)
     w_hits = [r for r in witness['results'] if r['reproduced']]
     new_w = [r for r in w_hits if r['name'] not in known_w]
